@@ -10,7 +10,7 @@
         broadcast use axiom_pair_clone;
         broadcast use axiom_comparator_total;
 //@ envcall into vec_into_arc new_addrs
-//@ closure 1
+//@ closure binary_search_by 1 optional
 |x: &(IpAddr, Arc<RtrMetricsData>)| -> (r: Ordering) ensures r == ip_cmp(x.0, addr)
-//@ closure 2
+//@ closure binary_search_by 2 optional
 |x: &(IpAddr, Arc<RtrMetricsData>)| -> (r: Ordering) ensures r == ip_cmp(x.0, addr)
